@@ -1048,3 +1048,41 @@ impl<'de> serde::de::Visitor<'de> for DataVisitor<'_> {
         Ok(())
     }
 }
+
+#[cfg(stam_verif)]
+impl AnnotationDataSet {
+    /// Verification hook: raw content of the set's indices
+    pub fn verif_dump(&self) -> crate::verif_hooks::DataSetDump {
+        crate::verif_hooks::DataSetDump {
+            handle: self.intid.map(|h| h.as_usize()),
+            keys_len: self.keys.len(),
+            data_len: self.data.len(),
+            keys: self
+                .keys
+                .iter()
+                .enumerate()
+                .filter_map(|(i, k)| k.as_ref().map(|k| (i, k.handle().map(|h| h.as_usize()), k.as_str().to_string())))
+                .collect(),
+            data: self
+                .data
+                .iter()
+                .enumerate()
+                .filter_map(|(i, d)| {
+                    d.as_ref().map(|d| {
+                        (
+                            i,
+                            d.handle().map(|h| h.as_usize()),
+                            d.id().map(|s| s.to_string()),
+                            d.key().as_usize(),
+                        )
+                    })
+                })
+                .collect(),
+            key_idmap: self.key_idmap.verif_dump(),
+            data_idmap: self.data_idmap.verif_dump(),
+            key_data_map: self.key_data_map.verif_dump(),
+            key_data_map_len: self.key_data_map.len(),
+            changed: self.changed(),
+        }
+    }
+}
